@@ -397,4 +397,34 @@ def wellFramed : List (Bytes × Bool) → Bool
   | [(_, fin)] => fin
   | (_, fin) :: rest => !fin && wellFramed rest
 
+/-! ### what the peers sent, as a function of the event history alone (no frame buffers, no wsproto states) -/
+
+structure Sent where
+  c : Bytes := []          -- data of the client's message in progress
+  s : Bytes := []          -- data of the server's message in progress
+  msgs : List Msg := []    -- finished / injected messages so far, as edited by the addons
+
+def Sent.acc (a : Sent) (fc : Bool) : Bytes := if fc then a.c else a.s
+def Sent.setAcc (a : Sent) (fc : Bool) (b : Bytes) : Sent := if fc then { a with c := b } else { a with s := b }
+
+/-- one wsproto event of direction `fc` -/
+def sentEv (pol : Policy) (fc : Bool) (a : Sent) : WsEv → Sent
+  | .msg t d _ mf =>
+    let cur := a.acc fc ++ d
+    if mf then
+      let m0 : Msg := { text := t, fromClient := fc, content := cur, injected := false, dropped := false }
+      { a.setAcc fc [] with msgs := a.msgs ++ [applyAction m0 (pol a.msgs.length m0)] }
+    else a.setAcc fc cur
+  | _ => a
+
+def sentOf (pol : Policy) (a : Sent) : Ev → Sent
+  | .data fc evs => evs.foldl (sentEv pol fc) a
+  | .inject fc t c =>
+    let m0 : Msg := { text := t, fromClient := fc, content := payload t c, injected := true, dropped := false }
+    { a with msgs := a.msgs ++ [applyAction m0 (pol a.msgs.length m0)] }
+
+/-- the messages of a history: every finished message of either peer (content = concatenation of the data of its
+    events, i.e. of its fragments) and every injected message, in arrival order, with the addons' decision applied -/
+def sentMessages (pol : Policy) (evs : List Ev) : List Msg := (evs.foldl (sentOf pol) {}).msgs
+
 end MitmVerif.C28
